@@ -75,7 +75,9 @@ def iso_data(draw, min_points=1, max_points=12, desorption=True, grid=None, stri
     branch = [0] * n_ads
     if desorption and n_ads >= 2 and draw(st.booleans()):
         n_des = draw(st.integers(1, max(1, min(n_ads - 1, 6))))
-        fr = sorted(draw(st.lists(st.floats(0.05, 0.95), min_size=n_des, max_size=n_des, unique=True)), reverse=True)
+        # fractions on a 1e-3 lattice: neighbouring desorption pressures must be distinct beyond rounding noise
+        fr = sorted(draw(st.lists(st.integers(50, 950), min_size=n_des, max_size=n_des, unique=True)), reverse=True)
+        fr = [f / 1000.0 for f in fr]
         pmax = p[-1]
         for f in fr:
             p.append(pmax * f)
